@@ -93,27 +93,28 @@ Record rstate := mkR {
 
 Definition mem_nat (n : nat) (l : list nat) : bool := existsb (Nat.eqb n) l.
 
+Definition do_step (fl : flavour) (ft : faults) (r : rstate) (s : bstep) : rstate :=
+  let budget' := match rs_budget r with Some (S n) => Some n | x => x end in
+  match s with
+  | SrcFetch p =>
+      mkR (rs_d r) (rs_sent r) (rs_src r ++ [CGetFileContent p]) (rs_errs r) (mem_nat (rs_get r) (ft_src ft))
+          (rs_mut r) (S (rs_get r)) budget'
+  | DestCmd c =>
+      let injected := mutating c && mem_nat (rs_mut r) (ft_dest ft) in
+      let de := if injected then (rs_d r, Some EInjected) else doer_exec fl (rs_d r) c in
+      let mut' := if mutating c then S (rs_mut r) else rs_mut r in
+      match snd de with
+      | None => mkR (fst de) (rs_sent r ++ [c]) (rs_src r) (rs_errs r) false mut' (rs_get r) budget'
+      | Some e => mkR (fst de) (rs_sent r ++ [c]) (rs_src r) (rs_errs r ++ [e]) false mut' (rs_get r)
+                      (match budget' with None => Some (ft_lag ft) | x => x end)
+      end
+  end.
+
 Definition run_step (fl : flavour) (ft : faults) (r : rstate) (s : bstep) : rstate :=
   if rs_srcfail r then r else
   match rs_budget r with
   | Some O => r
-  | _ =>
-    let budget' := match rs_budget r with Some (S n) => Some n | x => x end in
-    match s with
-    | SrcFetch p =>
-        if mem_nat (rs_get r) (ft_src ft)
-        then mkR (rs_d r) (rs_sent r) (rs_src r ++ [CGetFileContent p]) (rs_errs r) true (rs_mut r) (S (rs_get r)) budget'
-        else mkR (rs_d r) (rs_sent r) (rs_src r ++ [CGetFileContent p]) (rs_errs r) false (rs_mut r) (S (rs_get r)) budget'
-    | DestCmd c =>
-        let injected := mutating c && mem_nat (rs_mut r) (ft_dest ft) in
-        let '(d', err) := if injected then (rs_d r, Some EInjected) else doer_exec fl (rs_d r) c in
-        let mut' := if mutating c then S (rs_mut r) else rs_mut r in
-        match err with
-        | None => mkR d' (rs_sent r ++ [c]) (rs_src r) (rs_errs r) false mut' (rs_get r) budget'
-        | Some e => mkR d' (rs_sent r ++ [c]) (rs_src r) (rs_errs r ++ [e]) false mut' (rs_get r)
-                        (match budget' with None => Some (ft_lag ft) | x => x end)
-        end
-    end
+  | _ => do_step fl ft r s
   end.
 
 Definition run_steps (fl : flavour) (ft : faults) (r : rstate) (steps : list bstep) : rstate :=
